@@ -13,6 +13,7 @@ use super::ast::*;
 struct Pat {
     w: u32,
     paths: Vec<PathPat>,
+    optional: Vec<PathPat>,
     /// node variables in pattern order
     nodes: Vec<&'static str>,
     /// named single-hop edge variables
@@ -29,6 +30,7 @@ enum Shape {
     Fork,
     Cycle,
     Cartesian,
+    Optional,
 }
 
 const DIRS: [(Dir, u32); 3] = [(Dir::Out, 0), (Dir::In, 1), (Dir::Both, 1)];
@@ -45,7 +47,7 @@ fn patterns(depth: u32) -> Vec<Pat> {
     };
     // node
     for (lx, w) in [(vec![], 0u32), (lab(&["A"]), 1), (lab(&["A", "B"]), 2)] {
-        out.push(Pat { w, paths: vec![PathPat { start: node("x", &lx), hops: vec![] }], nodes: vec!["x"], edges: vec![], shape: Shape::Node });
+        out.push(Pat { w, optional: vec![], paths: vec![PathPat { start: node("x", &lx), hops: vec![] }], nodes: vec!["x"], edges: vec![], shape: Shape::Node });
     }
     // 1 hop
     for (lx, wlx) in [(vec![], 0u32), (lab(&["A"]), 1)] {
@@ -57,9 +59,7 @@ fn patterns(depth: u32) -> Vec<Pat> {
                         if w > depth {
                             continue;
                         }
-                        out.push(Pat {
-                            w,
-                            paths: vec![PathPat { start: node("x", &lx), hops: vec![hop(d, if named { Some("e") } else { None }, t, node("y", &ly))] }],
+                        out.push(Pat { w, optional: vec![], paths: vec![PathPat { start: node("x", &lx), hops: vec![hop(d, if named { Some("e") } else { None }, t, node("y", &ly))] }],
                             nodes: vec!["x", "y"],
                             edges: if named { vec!["e"] } else { vec![] },
                             shape: Shape::Hop1,
@@ -79,7 +79,7 @@ fn patterns(depth: u32) -> Vec<Pat> {
                 }
                 let mut h = hop(d, None, t, node("y", &[]));
                 h.varlen = Some((1, 2));
-                out.push(Pat { w, paths: vec![PathPat { start: node("x", &lx), hops: vec![h] }], nodes: vec!["x", "y"], edges: vec![], shape: Shape::VarLen });
+                out.push(Pat { w, optional: vec![], paths: vec![PathPat { start: node("x", &lx), hops: vec![h] }], nodes: vec!["x", "y"], edges: vec![], shape: Shape::VarLen });
             }
         }
     }
@@ -95,9 +95,7 @@ fn patterns(depth: u32) -> Vec<Pat> {
                                 if w > depth {
                                     continue;
                                 }
-                                out.push(Pat {
-                                    w,
-                                    paths: vec![PathPat {
+                                out.push(Pat { w, optional: vec![], paths: vec![PathPat {
                                         start: node("x", &lx),
                                         hops: vec![hop(d1, if named { Some("e") } else { None }, t1, node("y", &[])), hop(d2, if named { Some("f") } else { None }, t2, node("z", &lz))],
                                     }],
@@ -119,9 +117,9 @@ fn patterns(depth: u32) -> Vec<Pat> {
             continue;
         }
         let one = |a: &str, e: &str, b: &str| PathPat { start: node(a, &[]), hops: vec![hop(Dir::Out, Some(e), t, node(b, &[]))] };
-        out.push(Pat { w, paths: vec![one("x", "e", "y"), one("y", "f", "z")], nodes: vec!["x", "y", "z"], edges: vec!["e", "f"], shape: Shape::Chain });
-        out.push(Pat { w, paths: vec![one("x", "e", "y"), one("x", "f", "z")], nodes: vec!["x", "y", "z"], edges: vec!["e", "f"], shape: Shape::Fork });
-        out.push(Pat { w, paths: vec![one("x", "e", "y"), one("y", "f", "x")], nodes: vec!["x", "y"], edges: vec!["e", "f"], shape: Shape::Cycle });
+        out.push(Pat { w, optional: vec![], paths: vec![one("x", "e", "y"), one("y", "f", "z")], nodes: vec!["x", "y", "z"], edges: vec!["e", "f"], shape: Shape::Chain });
+        out.push(Pat { w, optional: vec![], paths: vec![one("x", "e", "y"), one("x", "f", "z")], nodes: vec!["x", "y", "z"], edges: vec!["e", "f"], shape: Shape::Fork });
+        out.push(Pat { w, optional: vec![], paths: vec![one("x", "e", "y"), one("y", "f", "x")], nodes: vec!["x", "y"], edges: vec!["e", "f"], shape: Shape::Cycle });
     }
     // cartesian product of two node patterns
     for (lx, wlx) in [(vec![], 0u32), (lab(&["A"]), 1)] {
@@ -129,7 +127,21 @@ fn patterns(depth: u32) -> Vec<Pat> {
         if w > depth {
             continue;
         }
-        out.push(Pat { w, paths: vec![PathPat { start: node("x", &lx), hops: vec![] }, PathPat { start: node("y", &[]), hops: vec![] }], nodes: vec!["x", "y"], edges: vec![], shape: Shape::Cartesian });
+        out.push(Pat { w, optional: vec![], paths: vec![PathPat { start: node("x", &lx), hops: vec![] }, PathPat { start: node("y", &[]), hops: vec![] }], nodes: vec!["x", "y"], edges: vec![], shape: Shape::Cartesian });
+    }
+    // OPTIONAL MATCH of one hop from a matched node
+    for (t, wt) in [(None, 0u32), (Some("K"), 1)] {
+        for (d, wd) in DIRS {
+            let w = 2 + wt + wd;
+            out.push(Pat {
+                w,
+                optional: vec![PathPat { start: node("x", &[]), hops: vec![hop(d, Some("e"), t, node("y", &[]))] }],
+                paths: vec![PathPat { start: node("x", &[]), hops: vec![] }],
+                nodes: vec!["x", "y"],
+                edges: vec!["e"],
+                shape: Shape::Optional,
+            });
+        }
     }
     out.retain(|p| p.w <= depth);
     out
@@ -237,6 +249,12 @@ fn plain_returns(p: &Pat) -> Vec<(u32, Vec<Item>)> {
             v.push((0, vec![ivar("x"), ivar("y")]));
             v.push((1, vec![iprop("x", "p"), iprop("y", "p")]));
         }
+        Shape::Optional => {
+            v.push((0, vec![ivar("x"), ivar("y")]));
+            v.push((0, vec![ivar("x")]));
+            v.push((1, vec![iprop("x", "p"), iprop("y", "p")]));
+            v.push((1, vec![ivar("x"), ivar("e")]));
+        }
     }
     v
 }
@@ -256,6 +274,7 @@ fn agg_returns(p: &Pat) -> Vec<(u32, Vec<Item>)> {
     let mut groups: Vec<(u32, Option<Item>)> = vec![(0, None)];
     if p.nodes.len() == 1 {
         groups.push((1, Some(iprop(last, "s"))));
+        groups.push((1, Some(ivar(last))));
     } else {
         groups.push((1, Some(ivar(first))));
         groups.push((1, Some(iprop(first, "p"))));
@@ -290,6 +309,9 @@ pub fn all_queries_weighted(depth_bound: u32) -> Vec<(u32, Query)> {
         let plain = plain_returns(&p);
         let aggs = agg_returns(&p);
         for (ww, w) in &ws {
+            if p.shape == Shape::Optional && w.is_some() {
+                continue;
+            }
             let base = p.w + ww;
             if base > depth_bound {
                 continue;
@@ -325,7 +347,7 @@ pub fn all_queries_weighted(depth_bound: u32) -> Vec<(u32, Query)> {
                             if total > depth_bound {
                                 continue;
                             }
-                            let q = Query { paths: p.paths.clone(), where_: w.clone(), items: items.clone(), distinct, order_by: o.clone(), skip, limit };
+                            let q = Query { paths: p.paths.clone(), optional: p.optional.clone(), where_: w.clone(), items: items.clone(), distinct, order_by: o.clone(), skip, limit };
                             debug_assert!(q.well_formed());
                             out.push((total, q));
                         }
@@ -349,7 +371,7 @@ pub fn all_queries_weighted(depth_bound: u32) -> Vec<(u32, Query)> {
                         if total > depth_bound {
                             continue;
                         }
-                        let q = Query { paths: p.paths.clone(), where_: w.clone(), items: items.clone(), distinct: false, order_by: o.clone(), skip, limit };
+                        let q = Query { paths: p.paths.clone(), optional: p.optional.clone(), where_: w.clone(), items: items.clone(), distinct: false, order_by: o.clone(), skip, limit };
                         debug_assert!(q.well_formed());
                         out.push((total, q));
                     }
